@@ -81,8 +81,9 @@ func runC03(c *Check, a *Analysis) {
 	p := c.P
 	ls := a.Locks()
 	sc := siteCounter{}
-	c.Rule("R-LOCK", "Conn.shutdown/closing/pending/streams only under Conn.mutex", 10)
+	c.Rule("R-LOCK", "Conn.shutdown/closing/pending/streams only under Conn.mutex; Server.codecs under Server.mutex; Server.listeners under Server.mut", 10)
 	ruleLock(c, a, "R-LOCK", "Conn", "shutdown", "closing", "pending", "streams")
+	ruleLock(c, a, "R-LOCK", "Server", "codecs", "listeners")
 
 	// ---- R-RDV-REG
 	c.Rule("R-RDV-REG", "every store into Conn.pending / Conn.streams is control dependent on Conn.shutdown and Conn.closing both read false in the same critical section of Conn.mutex", 2)
@@ -505,6 +506,27 @@ func ruleServerClose(c *Check, a *Analysis, rule string) {
 	if nReg == 0 {
 		c.Undecided(rule, "no ServeCodec call inside listen")
 	}
+	// the listener is entered into Server.listeners (under Server.mut) before it is served
+	regd := false
+	for _, st := range p.fieldStoresIn(lis, "Server", "listeners") {
+		if cc, ok := p.canon(st.Val).(*ssa.Call); ok && calleeName(cc) == "builtin append" && ls.Held(st, "Server.mut") {
+			okAll := true
+			for _, acc := range invokesIn(lis, "socket.Listener", "Accept") {
+				if !p.dominatesInstr(st, acc.(ssa.Instruction)) {
+					okAll = false
+				}
+			}
+			for _, sm := range invokesIn(lis, "socket.Listener", "ServeMessages") {
+				if !p.dominatesInstr(st, sm.(ssa.Instruction)) {
+					okAll = false
+				}
+			}
+			if okAll {
+				regd = true
+			}
+		}
+	}
+	c.Ob(rule, sc.key(lis, "listener registered before it is served"), lis.Pos(), regd, ifs(!regd, "the listener is not appended to Server.listeners (under Server.mut) before serving: Server.Close cannot close it and Listen never returns"))
 	// deferred cleanup closes every entry
 	cleanup := false
 	var cleanupPos token.Pos = lis.Pos()
